@@ -106,12 +106,27 @@ def verify_functions(quals, timeout_ms, procs=None):
                 tasks.append((q, i, timeout_ms))
     if not tasks:
         return []
-    procs = procs or min(16, len(tasks), os.cpu_count() or 1)
+    procs = procs or min(14, len(tasks), os.cpu_count() or 1)
     if procs <= 1:
-        return [_task(t) for t in tasks]
-    ctx = multiprocessing.get_context('fork')
-    with ctx.Pool(procs) as pool:
-        return pool.map(_task, tasks, chunksize=1)
+        outs = [_task(t) for t in tasks]
+    else:
+        ctx = multiprocessing.get_context('fork')
+        with ctx.Pool(procs) as pool:
+            outs = pool.map(_task, tasks, chunksize=1)
+    # obligations left `unknown` while all cores were busy are re-run one at a time with a generous
+    # budget, so that machine load does not flip a verdict
+    for k, (o, t) in enumerate(zip(outs, tasks)):
+        unk = set(r['name'] for r in o.get('results', []) if r['status'] == 'unknown')
+        if not unk or o.get('cached'):
+            continue
+        redo = RUN.verify_case(repo_root(), t[0], t[1], timeout_ms=max(t[2], 30000), only_names=unk)
+        better = dict((r['name'], r) for r in redo.get('results', []) if r['status'] != 'unknown' and r['kind'] != 'vacuity')
+        if better:
+            o['results'] = [better.get(r['name'], r) if r['status'] == 'unknown' else r for r in o['results']]
+            for r in o['results']:
+                if r['name'] in better:
+                    r['detail'] = 'decided in a sequential re-run. ' + (r.get('detail') or '')
+    return outs
 
 
 def load_known():
@@ -136,6 +151,7 @@ def run_replay_search(pid, failing, tier, seed):
                model=failing.get('model'), tier=tier, seed=seed)
     env = dict(os.environ)
     env['PYTHONPATH'] = repo_root() + os.pathsep + HERE
+    env['PYTHONWARNINGS'] = 'ignore'
     try:
         p = subprocess.run(['/venv/bin/python', '-W', 'ignore', os.path.join(HERE, 'replay', 'harness.py'),
                             '--search'], input=json.dumps(req), capture_output=True, text=True,
@@ -154,6 +170,7 @@ def run_bounded(targets, tier, seed):
         return []
     env = dict(os.environ)
     env['PYTHONPATH'] = repo_root() + os.pathsep + HERE
+    env['PYTHONWARNINGS'] = 'ignore'
     req = dict(targets=targets, tier=tier, seed=seed)
     try:
         p = subprocess.run(['/venv/bin/python', '-W', 'ignore', os.path.join(HERE, 'replay', 'harness.py'),
@@ -170,6 +187,7 @@ def reproduce_findings(ids):
         return {}
     env = dict(os.environ)
     env['PYTHONPATH'] = repo_root() + os.pathsep + HERE
+    env['PYTHONWARNINGS'] = 'ignore'
     try:
         p = subprocess.run(['/venv/bin/python', '-W', 'ignore', os.path.join(HERE, 'replay', 'harness.py'),
                             '--findings'], input=json.dumps(dict(ids=ids)), capture_output=True, text=True,
@@ -356,6 +374,7 @@ def replay_file(path):
         return 1
     env = dict(os.environ)
     env['PYTHONPATH'] = repo_root() + os.pathsep + HERE
+    env['PYTHONWARNINGS'] = 'ignore'
     p = subprocess.run(['/venv/bin/python', '-W', 'ignore', os.path.join(HERE, 'replay', 'harness.py'),
                         '--replay'], input=json.dumps(rep), text=True, env=env, cwd=HERE)
     return p.returncode
